@@ -10,9 +10,14 @@ Python semantics mirrored:
   Keys are modelled as `Nat` (negative keys, which Python would silently wrap around,
   are outside the model's domain and never produced by the parser).
 * `atomic_number(name)`: `symbols.index(name.capitalize()) + 1`, falling back to
-  `lower_names.index(name.lower()) + 1`, else ValueError (`none`). ASCII only.
+  `lower_names.index(name.lower()) + 1`, else ValueError (`none`). ASCII only
+  (`str.capitalize` / `str.lower` on non-ASCII text, e.g. 'ſ'.capitalize() == 'S', are outside the model).
+* `Substance.from_formula(s).mass` = `mass_from_composition(formula_to_composition(s))` (chemistry.py `Substance.mass`,
+  no `data['mass']` given); `Species.from_formula(s, phases)` passes `suffixes = tuple(phases) + ("(aq)",)` to the parser.
+  The parser model is the one of C01 (Model/Formula.lean).
 -/
 import ChemModel.Gen.Periodic
+import ChemModel.Model.Formula
 
 namespace ChemModel.Periodic
 open ChemModel.Gen
@@ -76,11 +81,65 @@ def atomicNumber (name : String) : Option Nat :=
     | some i => some (i + 1)
     | none => none
 
-/-- `mass_fractions`: per entry `mass * v / tot_mass`; (mass, v) pairs in dict order.
-    Division by a zero total raises ZeroDivisionError in Python (`none`). -/
+/-- `mass_fractions` (chemistry.py): `tot_mass = sum([m*v ...])`, then the dict comprehension
+    `{k: m*v/tot_mass ...}` over the (mass, v) pairs in dict order. The division happens once per entry, so a zero
+    total raises ZeroDivisionError (`none`) only when there is at least one entry: `mass_fractions({}) == {}`. -/
 def massFractions (mv : List (Rat × Rat)) : Option (List Rat) :=
   let tot := (mv.map fun p => p.1 * p.2).foldl (· + ·) 0
-  if tot = 0 then none else some (mv.map fun p => p.1 * p.2 / tot)
+  mv.mapM fun p => if tot = 0 then none else some (p.1 * p.2 / tot)
+
+/-- outcome of `Substance.from_formula(s).mass`: a parser exception, IndexError from the table lookup, or the mass -/
+inductive MassErr
+  | parse (e : Formula.ErrKind)
+  | index
+deriving DecidableEq, Repr
+
+def MassErr.pyName : MassErr → String
+  | .parse e => e.pyName
+  | .index => "IndexError"
+
+/-- `mass_from_composition(formula_to_composition(s, prefixes, suffixes))` -/
+def formulaMassWith (prefixes suffixes : List (List Char)) (s : List Char) : Except MassErr Rat :=
+  match Formula.formulaToCompositionWith prefixes suffixes s with
+  | .error e => .error (.parse e)
+  | .ok c => match massFromComposition c with
+    | none => .error .index
+    | some m => .ok m
+
+/-- `Substance.from_formula(s).mass` (default prefixes and suffixes) -/
+def formulaMass (s : String) : Except MassErr Rat :=
+  formulaMassWith Gen.prefixesL Gen.suffixesL s.toList
+
+/-- the phases `Species.from_formula` uses by default: `("(s)", "(l)", "(g)")` -/
+def defaultPhases : List (List Char) := [['(', 's', ')'], ['(', 'l', ')'], ['(', 'g', ')']]
+
+/-- `Species.from_formula(s, phases).mass`: the composition is parsed with `suffixes = tuple(phases) + ("(aq)",)` -/
+def speciesMass (phases : List (List Char)) (s : String) : Except MassErr Rat :=
+  formulaMassWith Gen.prefixesL (phases ++ [['(', 'a', 'q', ')']]) s.toList
+
+/-! ### specification side (independent of the loop above; used in the statements of Props/C14.lean) -/
+
+/-- standard atomic weight of atomic number `z` as a plain number, for use inside sums.
+    Outside 1..118 the value is 0; every theorem using it also shows that no such `z` occurs
+    (`weight?_eq_stdWeight`, `occurrence_keys_in_table`), so the default never carries a result. -/
+def stdWeight (z : Nat) : Rat :=
+  match weight? z with
+  | some w => w
+  | none => 0
+
+/-- contribution of one dict entry `(key, amount)`: key 0 is the net charge, every other key an atomic number -/
+def entryMass (p : Nat × Rat) : Rat :=
+  if p.1 = 0 then -(p.2 * electronMass) else p.2 * stdWeight p.1
+
+/-- the mass a written formula *should* have: Σ over every element occurrence of
+    (product of the enclosing multipliers, hydrate count included) × standard weight, minus signed charge × mₑ.
+    Defined on the AST only (`Formula.occurrences`, `Formula.denote f 0`); no parser, no dict. -/
+def occurrenceMass (f : Formula.Formula) : Rat :=
+  (f.occurrences.map fun p => p.2 * stdWeight p.1).sum - f.denote 0 * electronMass
+
+/-- a formula consisting of one part with the given terms and nothing else (no prefix, charge, suffix) -/
+def bareFormula (ts : Formula.Terms) : Formula.Formula :=
+  { prefixes := [], sep := .dots, parts := [⟨none, ts⟩], charge := none, suffix := none }
 
 /-- period / group tables as computed at import time of periodic.py -/
 def groupMembers (g : Nat) : List Nat :=
